@@ -20,6 +20,11 @@ func WaitAll(event func(Module) reactive.Event, modules ...Module) reactive.Wait
 		})
 	}
 
+	// without any modules there is nothing to wait for (an empty WaitGroup would otherwise never trigger)
+	if len(modules) == 0 {
+		wg.Trigger()
+	}
+
 	return wg
 }
 
